@@ -162,6 +162,33 @@ impl Backend {
         self.update_document(url, &content, language_id).await
     }
 
+    /// Re-lint a document that is already open, using the text the client sent last.
+    async fn refresh_document(&self, url: &Url) -> Result<()> {
+        let text = {
+            let doc_lock = self.doc_state.lock().await;
+
+            match doc_lock.get(url) {
+                Some(doc_state) => doc_state.document.get_full_string(),
+                None => return Ok(()),
+            }
+        };
+
+        self.update_document(url, &text, None).await
+    }
+
+    /// Re-lint every open document and publish the results.
+    async fn refresh_all_documents(&self) {
+        let urls: Vec<Url> = self.doc_state.lock().await.keys().cloned().collect();
+
+        for url in urls {
+            self.refresh_document(&url)
+                .await
+                .map_err(|err| error!("{err}"))
+                .err();
+            self.publish_diagnostics(&url).await;
+        }
+    }
+
     async fn update_document(
         &self,
         url: &Url,
@@ -565,10 +592,8 @@ impl LanguageServer for Backend {
                     .await
                     .map_err(|err| error!("{err}"))
                     .err();
-                self.update_document_from_file(&file_url, None)
-                    .await
-                    .map_err(|err| error!("{err}"))
-                    .err();
+                // The user dictionary applies to every open document.
+                self.refresh_all_documents().await;
                 self.publish_diagnostics(&file_url).await;
             }
             "HarperAddToFileDict" => {
@@ -596,7 +621,7 @@ impl LanguageServer for Backend {
                     .await
                     .map_err(|err| error!("{err}"))
                     .err();
-                self.update_document_from_file(&file_url, None)
+                self.refresh_document(&file_url)
                     .await
                     .map_err(|err| error!("{err}"))
                     .err();
@@ -668,7 +693,7 @@ impl LanguageServer for Backend {
         };
 
         for url in urls {
-            self.update_document_from_file(&url, None)
+            self.refresh_document(&url)
                 .await
                 .map_err(|err| error!("{err}"))
                 .err();
